@@ -5,6 +5,7 @@ Tie: root / locking script / unlocking scripts / pack of every tree vs the model
 every run also executed on the model VM. Oracles on the implementation alone: the tapes handed
 to run_tape and the per-leaf cache markers show which supplied scripts started."""
 from __future__ import annotations
+import hashlib
 from functools import lru_cache
 from nacl.signing import SigningKey
 from ..core import Result, Ctx, DriverCrash
@@ -427,6 +428,15 @@ def run(ctx: Ctx) -> Result:
                 ok, o, tapes = auth([u, lockb], record=False)
                 if [t for t in tapes[2:] if not (len(t) == 33 and t[0] == 60)][:1] != [code] or ok != own or markers_in(o):
                     B.viol(f'{kind} tree, {n} leaves: filler leaf does not run alone with its own verdict', {'builder': kind, 'n': n, 'scripts': [u.hex(), lockb.hex()]}, own, o[:80])
+            # forgery against a node whose two children carry the same commitment (its root would be all zeros and (sha256(X), X)
+            # would verify there for any X): tried at the place of every leaf, filler leaves included
+            X = marker(201) + T.Script.from_src('true').bytes
+            for lf in tl:
+                try: pairs_ = proof_pairs(T, lf)
+                except BaseException: continue
+                forged = serialise(T, [(hashlib.sha256(X).digest(), X)] + pairs_[1:])
+                res.note_case((kind, codes, 'zero-root-forgery', lf.script.bytes))
+                check_rejected(f'{kind} tree, {n} leaves: uncommitted script X with sibling hash sha256(X) in place of a leaf', lockb, forged, {X}, inp)
             present = [l.script.bytes for l in tl]
             if [c for c in present if c in codes] != list(codes):
                 B.viol(f'{kind} tree, {n} leaves: input leaves missing or reordered in the tree', inp, n, len([c for c in present if c in codes]))
